@@ -184,11 +184,8 @@ Definition is_resolved (q : qres) : bool := match q with QResolved _ => true | _
 Definition unresolved_at (cur : pv) (q : query) : qres :=
   QUnResolved (mkUnres cur (slice_display q) true).
 
-(* `if index >= 0 { index } else { -index } as usize`; -i32::MIN overflows (debug build panics) *)
-Definition abs_index (i : Z) : outcome nat :=
-  if Z.leb 0 i then Done (Z.to_nat i)
-  else if Z.eqb i i32_min then Panic P_index_neg_overflow
-  else Done (Z.to_nat (- i)).
+(* `index.unsigned_abs() as usize` (fix ff08e75; before it, -i32::MIN overflowed) *)
+Definition abs_index (i : Z) : outcome nat := Done (Z.to_nat (Z.abs i)).
 
 Definition retrieve_index (parent : pv) (i : Z) (elements : list pv) (q : query) : outcome qres :=
   check <-- abs_index i ;;
